@@ -1798,7 +1798,13 @@ func fzLastLogLines(path string, n int) []string {
 
 func fzRunChild(c *checkCtx, role string, a fzArgs, agg *fzAgg) {
 	data, _ := json.Marshal(a)
-	cp, err := c.spawnChild(role, []string{string(data)})
+	var env []string
+	if a.Batch%3 == 1 {
+		// a legal, rarely used configuration: protocol tracing on (its output is level-gated and stays silent here)
+		env = append(env, "SHMIPC_PROTOCOL_TRACE=1")
+		c.count("child_batches_with_protocol_trace_on", 1)
+	}
+	cp, err := c.spawnChild(role, []string{string(data)}, env...)
 	if err != nil {
 		c.inconclusiveCase(fmt.Sprintf("%s-%s-%d", role, a.Role, a.Batch), "spawn: "+err.Error())
 		return
